@@ -4,19 +4,32 @@ from wt_common import WT_LEAN, WT_TRUST, wt_engine
 PROP = {
     "generated": [],
     "lean_modules": WT_LEAN + ["SwimVerif.Model.LinksSys", "SwimVerif.Proofs.Links", "SwimVerif.Proofs.LinksTotal",
-                               "SwimVerif.Proofs.LinksAll", "SwimVerif.Proofs.LinksEvents"],
+                               "SwimVerif.Proofs.LinksAll", "SwimVerif.Proofs.LinksEvents",
+                               "SwimVerif.Proofs.LinksLaneEvents", "SwimVerif.Proofs.LinksWT",
+                               "SwimVerif.Proofs.LinksWTInv", "SwimVerif.Proofs.LinksWTEvents",
+                               "SwimVerif.Proofs.LinksWTLane", "SwimVerif.Proofs.LinksWTLive",
+                               "SwimVerif.Proofs.LinksWTCount"],
     "engines": [wt_engine("C20", quick=4000)],
     "level_text": "Proof: for every sequence of the registry operations (insert, remove, remove remote, remove lane, "
                   "remove all, event counting, snapshots, reporter registration at lane registration) the count "
                   "reported for every lane with a reporter equals the number of remotes linked to it, the aggregate "
                   "equals the running total, the running total equals the sum over the lanes, no link is held twice, "
-                  "and snapshots + residual = events counted. The model is tied to the real Links + UplinkReporter "
+                  "and snapshots + residual = events counted. The same for the WHOLE write task (every sequence of "
+                  "write-task events in which responses addressed to a remote come from registered lanes): each "
+                  "iteration of the loop performs an admissible sequence of registry operations, so all of the above "
+                  "holds in every reached state; event counters are accounted for exactly (aggregate and per lane: "
+                  "snapshots + residual + routed-uncounted = responses handed to remotes), and with every lane "
+                  "holding a reporter every routed response is counted exactly once. The model is tied to the real Links + UplinkReporter "
                   "inside the real WriteTaskState by differential execution (every snapshot compared) and the "
                   "monitor checks the snapshots against a reference set of (lane, remote) links.",
     "level_note": "Counters are unbounded naturals (the code saturates at u64::MAX); the atomics of UplinkCounters are "
-                  "modelled as atomic steps (fetch_update / CAS loop are linearizable read-modify-writes); that every "
-                  "write-task run drives the registry admissibly is tied by correspondence, not proved.",
+                  "modelled as atomic steps (fetch_update / CAS loop are linearizable read-modify-writes). The "
+                  "unrestricted statement (any lane id in a response) is false for model and code alike "
+                  "(C20_write_task_links_fails: a reporter registered for a lane id that already has links is never "
+                  "told about them); the runtime only produces responses of registered lanes.",
     "trusted_base": COMMON_TRUST + WT_TRUST + ["modelled, not verified: AtomicU64 counters (Relaxed, single location)"],
     "assumptions": ["a lane's reporter is registered when the lane is registered (register_lane)",
+                    "a response addressed to a remote carries the id of a registered lane (lane ids come from the "
+                    "streams of registered lanes)",
                     "event counts stay below u64::MAX"],
 }
